@@ -122,7 +122,9 @@ class WideGen:
     def default_for(self, kind, ast):
         r = self.rng
         if kind == "int" and ast["cons"] == "":
-            return "%d" % r.choice([0, 1, -1, 5, 255])
+            v = r.choice([0, 1, -1, 5, 255])
+            # INTEGER DEFAULT <negative>: asn1c emits the identifier asn_DFL_n_cmp_-1 (does not compile; C10)
+            return "%d" % (5 if (v < 0 and self.avoid_c10) else v)
         if kind == "boolean":
             return r.choice(["TRUE", "FALSE"])
         return None
@@ -341,7 +343,6 @@ FEATURES = [f for f in ALL_FEATURES if f != "recursion"]
 
 
 def classify(module, typename, syntax, status, stderr=""):
-    mt = re.match(r"DEC:OK:(\d+)/(\d+)$", status)
-    if syntax == "xer" and mt and int(mt.group(1)) + 1 == int(mt.group(2)):
+    if syntax == "xer" and status == "NL":
         return "C01-xer-trailing-newline"
     return None
